@@ -39,6 +39,8 @@ HARNESSES += _load("sg_common").sg_harnesses(("SEL_RD",))
 HARNESSES += _load("blk_common").alac_stage_harnesses(("SEL_READ", "SEL_WRITE"))
 # MS ADPCM write staging (reads exactly the items the caller supplied)
 HARNESSES += _load("blk_common").ms_stage_harnesses()
+# staging wrappers of the 16-bit block codecs (IMA, MS, GSM 06.10, G.72x, NMS)
+HARNESSES += _load("blk_common").stage_generic_harnesses(("SEL_READ", "SEL_WRITE"))
 
 META = {"assumptions": ["I_open (harness/include/handle.h) is the handle invariant", "codec entry points satisfy K-codec-read/-write/K-seek (proved per codec in the codec harnesses)"],
         "outside": ["request sizes beyond 2 frames at wrapper level (arithmetic is uniform in len)"]}
